@@ -106,6 +106,17 @@ class MayDepend:
 
     def names(self, nodes):
         b = self.body
+        from .origin import baseline_params, current_params
+        alias = {}
+        base = baseline_params().get(b.name)
+        if base:
+            for cur, ref in zip(current_params(b), base):
+                if cur and ref and cur != ref:
+                    alias[cur] = ref
+        return {alias.get(n, n) for n in self._names(nodes)}
+
+    def _names(self, nodes):
+        b = self.body
         out = set()
         for n in nodes:
             if n[0] == "up":
